@@ -6,17 +6,18 @@ import (
 	"fmt"
 	"os"
 	"os/exec"
-
-	yamlv3c "gopkg.in/yaml.v3"
 	"path/filepath"
 	"runtime"
 	"runtime/debug"
 	"strconv"
 	"strings"
 	"sync/atomic"
-	"tags.cncf.io/container-device-interface/pkg/cdi"
 	"testing"
+	"time"
 
+	"golang.org/x/sys/unix"
+	yamlv3c "gopkg.in/yaml.v3"
+	"tags.cncf.io/container-device-interface/pkg/cdi"
 	"tags.cncf.io/container-device-interface/verifharness/stats"
 )
 
@@ -172,5 +173,23 @@ func undecidedIfNoInotify(t fataler, c *cdi.Cache) {
 		if strings.Contains(e.Error(), "failed to create watcher") {
 			t.Fatalf("VERIF-UNDECIDED the environment has no inotify instance left (fs.inotify.max_user_instances exhausted by other processes): %v", e)
 		}
+	}
+}
+
+// waitForInotify waits (up to a minute) until an inotify instance can be
+// created, so that a transient exhaustion of fs.inotify.max_user_instances by
+// other processes does not turn a run into "undecided".
+func waitForInotify() {
+	deadline := time.Now().Add(60 * time.Second)
+	for {
+		fd, err := unix.InotifyInit1(unix.IN_CLOEXEC)
+		if err == nil {
+			_ = unix.Close(fd)
+			return
+		}
+		if time.Now().After(deadline) {
+			return
+		}
+		time.Sleep(250 * time.Millisecond)
 	}
 }
